@@ -140,7 +140,7 @@ func genC19(c *Ctx) {
 	if c.Thorough() {
 		base = 100
 	}
-	patterns := []string{"pingpong", "oneway", "forged-flood", "crossing", "error-reake"}
+	patterns := []string{"pingpong", "oneway", "forged-flood", "crossing", "error-reake", "answers-lost", "answers-late", "bad-fragment-flood", "plaintext-flood"}
 	for _, pat := range patterns {
 		var sizes [][]int
 		for _, mult := range []int{1, 2, 4} {
@@ -187,6 +187,54 @@ func genC19(c *Ctx) {
 					lastLen = len(o[len(o)-1])
 					s.Send(1, []byte("c3"))
 					s.Pump(1, 2, 10)
+				case "answers-lost", "answers-late":
+					// the peer streams, we answer every message, our answers do not arrive (yet): sending and receiving
+					// alternate while no key rotates
+					s.Send(1, []byte("st"))
+					s.Pump(1, 2, 1)
+					before := len(s.ps[2].outs)
+					o := s.Send(2, []byte("an"))
+					lastLen = len(o[len(o)-1])
+					if pat == "answers-lost" {
+						s.dropFrom(2, before)
+					} else if r == n-1 {
+						s.Pump(1, 2, 4*n)
+						o := s.Send(2, []byte("an-last"))
+						lastLen = len(o[len(o)-1])
+						s.Pump(1, 2, 10)
+					} else {
+						// keep party 2's answers in flight: deliver only party 1's
+						s.ps[2].pending = before
+					}
+				case "bad-fragment-flood":
+					// fragments that are refused (malformed instance tag, illegal index, garbage): nothing may pile up
+					for _, f := range []string{"?OTR|00000005|00000000,00001,00002,xx,", "?OTR|00000100|00000007,00001,00002,xx,", "?OTR,00000,00002,xx,", "?OTR|zz", "?OTR,00003,00002,xx,"} {
+						func() {
+							defer func() { recover() }()
+							s.ps[2].c.Receive([]byte(f))
+						}()
+					}
+					if r == n-1 {
+						o := s.Send(2, []byte("after the flood"))
+						lastLen = 0
+						for _, m := range o {
+							lastLen += len(m)
+						}
+					}
+				case "plaintext-flood":
+					for _, f := range []string{"hello", "?OTR Error: x", "?OTRv9?", "?OTR:AAEK."} {
+						func() {
+							defer func() { recover() }()
+							s.ps[2].c.Receive([]byte(f))
+						}()
+					}
+					if r == n-1 {
+						o := s.Send(2, []byte("after the flood"))
+						lastLen = 0
+						for _, m := range o {
+							lastLen += len(m)
+						}
+					}
 				case "error-reake":
 					o := s.Send(1, []byte("er"))
 					lastLen = len(o[len(o)-1])
@@ -204,7 +252,7 @@ func genC19(c *Ctx) {
 				total += st.NCounters + st.NMacHistory + st.NOldMACKeys + st.NResend
 			}
 			sizes = append(sizes, []int{n, total, lastLen})
-			if mult == 1 {
+			if mult == 1 && pat != "bad-fragment-flood" && pat != "plaintext-flood" && pat != "answers-late" {
 				c.AddScenario(s, pols)
 			} else {
 				c.Rep.Evaluations++
